@@ -206,6 +206,8 @@ def run(repo: Repo, rep: Report, tier: str) -> None:
     from ..delegate import delegate
     rep.rule("wire-conversion", "the A-ASSOCIATE PDUs convert to / from primitives without dropping or defaulting a parameter (C01's primitive-pairs rule)")
     delegate(repo, rep, tier, "C01", ("primitive-pairs",), "wire-conversion", "a proposed context or its result can vanish between the PDU and the primitive: it then appears neither as accepted nor as rejected on the requestor side, or the two sides hold different sets")
+    rep.rule("private-contexts", "each acceptor association negotiates against its own copy of the supported contexts (C10's config-copy)")
+    delegate(repo, rep, tier, "C10", ("config-copy",), "private-contexts", "the supported-context objects are shared between the associations of a server: a role setting changed for one association (an EVT_REQUESTED handler, add_supported_context at run time) between the two reads of the negotiation makes the acceptor's stored outcome and its role reply disagree - the two sides end with roles that are not complementary")
 
 def _affine(e, var: str):
     """expression over one integer variable -> (a, b) with e == a*var + b, or None"""
